@@ -99,6 +99,20 @@ type Live struct {
 	Events  chan string
 	peerSeq int
 	ready   chan struct{}
+	pause   chan struct{} // closed = the peer has stopped reading
+	pauseMu sync.Mutex
+}
+
+// StopReading makes the scripted peer stop reading from the connection (the session's writes then
+// hit their deadline).
+func (l *Live) StopReading() {
+	l.pauseMu.Lock()
+	defer l.pauseMu.Unlock()
+	select {
+	case <-l.pause:
+	default:
+		close(l.pause)
+	}
 }
 
 // Start wires the session up and starts serving; the returned Live is the scripted peer's view.
@@ -110,7 +124,7 @@ func Start(cfg Config) (*Live, error) {
 		cfg.CloseTimeout = 5 * time.Second
 	}
 	l := &Live{Cfg: cfg, Served: make(chan error, 1), In: make(chan Msg, 100000), EOF: make(chan struct{}),
-		Events: make(chan string, 1000), ready: make(chan struct{})}
+		Events: make(chan string, 1000), ready: make(chan struct{}), pause: make(chan struct{})}
 	libEnd, peerEnd := net.Pipe()
 	l.Peer = peerEnd
 	l.Store = memory.NewStorage()
@@ -205,6 +219,11 @@ func (l *Live) readPeer() {
 	var acc []byte
 	buf := make([]byte, 65536)
 	for {
+		select {
+		case <-l.pause:
+			return // the peer does not read any more; EOF is reported so that waiters do not hang
+		default:
+		}
 		n, err := l.Peer.Read(buf)
 		now := time.Now()
 		acc = append(acc, buf[:n]...)
